@@ -194,6 +194,13 @@ Proof.
   pose proof (kslot_nonneg ch_kp ch_kp_nonneg st wf 41 K). pose proof (oweight_nonneg others) as ON.
   unfold CH_ORDER in S1, S2. rewrite !wsum_cons in S1, S2. cbn [wsum fold_right] in S1, S2.
   clear E1 E2 E3 E4 Hb Hb1 Hb2 Hb3 Hb4 Hr K.
+  assert (B : wf 51 < 65540 /\ wf 43 < 65540 /\ wf 13 < 65540 /\ wf 10 < 65540 /\ wf 45 < 65540 /\ wf 0 < 65540 /\
+              wf 16 < 65540 /\ wf 42 < 65540 /\ wf 41 < 65540 /\ oweight others < 65536)
+    by (clear - S1 H H0 H1 H2 H3 H4 H5 H6 H7 ON; lia).
+  destruct B as (B51 & B43 & B13 & B10 & B45 & B0 & B16 & B42 & B41 & Bo).
+  specialize (F51 B51). specialize (F43 B43). specialize (F13 B13). specialize (F10 B10). specialize (F45 B45).
+  specialize (F0 B0). specialize (F16 B16). specialize (F42 B42). specialize (F41 B41).
+  clear B51 B43 B13 B10 B45 B0 B16 B42 B41.
   assert (Ed : out_bytes random ++ out_bytes sid ++ dump_ints cs ++ dump_ints cm ++ out_est CH_ORDER st =
                out_bytes random ++ out_bytes sid ++ dump_ints cs ++ dump_ints cm ++
                dump_opt (dump_list dump_ext) ks ++ dump_opt dump_ints sv ++ dump_opt dump_ints sa ++ dump_opt dump_ints sg ++
@@ -218,8 +225,12 @@ Proof.
   assert (FX : fits_seq (ch_exts (mkCH random sid cs cm ks sv sa sg modes sni alpn (flag_of ed) psk others)) = true).
   { unfold ch_exts. cbn [ch_key_share ch_supported_versions ch_signature_algorithms ch_supported_groups ch_psk_key_exchange_modes
                          ch_server_name ch_alpn_protocols ch_early_data ch_pre_shared_key ch_other_extensions].
-    clear - F51 F43 F13 F10 F45 F0 F16 F42 F41 S1 H H0 H1 H2 H3 H4 H5 H6 H7 ON.
-    rewrite flag_tree, !fits_seq_app, F51, F43, F13, F10, F45, F0, F16, F42, F41, fits_others by lia. reflexivity. }
+    rewrite flag_tree, !fits_seq_app, F51, F43, F13, F10, F45, F0, F16, F42, F41, fits_others by exact Bo. reflexivity. }
+  assert (SX1 : Zlen (flat_seq (ch_exts (mkCH random sid cs cm ks sv sa sg modes sni alpn (flag_of ed) psk others))) < 65536)
+    by (rewrite EX; clear - S1; lia).
+  assert (SX2 : 2 + Zlen (flat_seq (ch_exts (mkCH random sid cs cm ks sv sa sg modes sni alpn (flag_of ed) psk others))) +
+                Zlen b5 <= Zlen b4) by (rewrite EX; clear - S2; lia).
+  clear EX S1 S2 H H0 H1 H2 H3 H4 H5 H6 H7 ON Bo.
   split; [|split; [|split]].
   - unfold dump_client_hello. cbn [ch_random ch_session_id ch_cipher_suites ch_compression_methods ch_key_share ch_supported_versions
       ch_signature_algorithms ch_supported_groups ch_psk_key_exchange_modes ch_server_name ch_alpn_protocols ch_early_data
@@ -228,19 +239,23 @@ Proof.
     unfold client_hello_wf. cbn [ch_random ch_session_id ch_cipher_suites ch_compression_methods ch_key_share ch_supported_versions
       ch_signature_algorithms ch_supported_groups ch_psk_key_exchange_modes ch_server_name ch_alpn_protocols ch_early_data
       ch_pre_shared_key ch_other_extensions].
-    rewrite !andb_true_iff. repeat split; try assumption. lia.
+    rewrite !andb_true_iff. repeat split; try assumption. apply Z.eqb_eq. exact Lr.
   - clear W51 W43 W13 W10 W45 W0 W16 W42 W41 W L51 L43 L13 L10 L45 L0 L16 L42 L41 F51 F43 F13 F10 F45 F0 F16 F42 F41 Wcs Wcm.
     unfold tree_client_hello. cbn [ch_random ch_session_id ch_cipher_suites ch_compression_methods].
     rewrite fits_single in Fcs, Fcm. rewrite flat_single in Lcs, Lcm.
-    rewrite !fits_seq_cons, fits_block, !fits_seq_cons, !fits_int, fits_bytes, fits_seq_nil, Fs, Fcs, Fcm, fits_block, FX, EX.
-    rewrite !flat_seq_cons, flat_seq_nil, !flat_int, flat_bytes, flat_block, EX, !Zlen_app, !be_enc_Zlen.
+    rewrite !fits_seq_cons, fits_block, !fits_seq_cons, !fits_int, fits_bytes, fits_seq_nil, Fs, Fcs, Fcm, fits_block, FX.
+    rewrite !flat_seq_cons, flat_seq_nil, !flat_int, flat_bytes, flat_block, !Zlen_app, !be_enc_Zlen.
     cbn [andb]. change (Zlen (@nil Z)) with 0. change (256 ^ Z.of_nat 3) with 16777216. change (256 ^ Z.of_nat 2) with 65536.
-    change (Z.of_nat 2) with 2. lia.
+    change (Z.of_nat 2) with 2. change (Z.of_nat 3) with 3. change (Z.of_nat 1) with 1.
+    clear - Lbs Hlen C Lr L1 Lcs Lcm SX1 SX2.
+    pose proof (Zlen_nonneg (flat_tv (t_opaque 1 sid))). pose proof (Zlen_nonneg (flat_tv (t_uints 2 2 cs))).
+    pose proof (Zlen_nonneg (flat_tv (t_uints 1 1 cm))). pose proof (Zlen_nonneg b5).
+    repeat (apply andb_true_intro; split); try reflexivity; apply Z.ltb_lt; lia.
   - clear W51 W43 W13 W10 W45 W0 W16 W42 W41 W L51 L43 L13 L10 L45 L0 L16 L42 L41 F51 F43 F13 F10 F45 F0 F16 F42 F41 Wcs Wcm FX Fs
           Fcs Fcm.
     unfold tree_client_hello. cbn [ch_random ch_session_id ch_cipher_suites ch_compression_methods].
     rewrite flat_single in Lcs, Lcm.
     rewrite !flat_seq_cons, flat_seq_nil, flat_int, flat_block, !flat_seq_cons, flat_seq_nil, !flat_int, flat_bytes, flat_block.
-    repeat rewrite ?Zlen_app, ?be_enc_Zlen, ?EX. change (Zlen (@nil Z)) with 0.
+    repeat rewrite ?Zlen_app, ?be_enc_Zlen. change (Zlen (@nil Z)) with 0.
     change (Z.of_nat 3) with 3. change (Z.of_nat 2) with 2. change (Z.of_nat 1) with 1. lia.
 Qed.
